@@ -229,7 +229,7 @@ func (ex *Exec) load(st *State, p *Term, t types.Type) *Term {
 		if isInterior(base) {
 			return f.Select(ex.loadArr(st, base, s), idx)
 		}
-		return f.Select(f.Select(ex.comp(st, "E."+sanitize(string(s)), ArraySort(SInt, ArraySort(SInt, s))), base), idx)
+		return f.Select(f.Select(ex.comp(st, ex.eComp(t), ArraySort(SInt, ArraySort(SInt, s))), base), idx)
 	}
 	if dt, stt, ok := ex.tm.StructOf(t); ok {
 		args := make([]*Term, stt.NumFields())
@@ -240,12 +240,11 @@ func (ex *Exec) load(st *State, p *Term, t types.Type) *Term {
 		return f.Mk(dt, args...)
 	}
 	if s.IsArray() {
-		if _, isArr := types.Unalias(t).Underlying().(*types.Array); isArr {
-			_, es := s.ArrayParts()
-			return f.Select(ex.comp(st, "E."+sanitize(string(es)), ArraySort(SInt, s)), p)
+		if at, isArr := types.Unalias(t).Underlying().(*types.Array); isArr {
+			return f.Select(ex.comp(st, ex.eComp(at.Elem()), ArraySort(SInt, s)), p)
 		}
 	}
-	return f.Select(ex.comp(st, "P."+sanitize(string(s)), ArraySort(SInt, s)), p)
+	return f.Select(ex.comp(st, ex.pComp(t), ArraySort(SInt, s)), p)
 }
 
 // loadArr loads the whole array (Array Int elem) stored at interior pointer base.
@@ -321,7 +320,7 @@ func (ex *Exec) store(st *State, p *Term, t types.Type, v *Term) {
 			ex.storeArr(st, base, s, f.Store(arr, idx, v))
 			return
 		}
-		name := "E." + sanitize(string(s))
+		name := ex.eComp(t)
 		e := ex.comp(st, name, ArraySort(SInt, ArraySort(SInt, s)))
 		ex.setComp(st, name, f.Store(e, base, f.Store(f.Select(e, base), idx, v)))
 		return
@@ -336,15 +335,14 @@ func (ex *Exec) store(st *State, p *Term, t types.Type, v *Term) {
 		return
 	}
 	if s.IsArray() && t != nil {
-		if _, isArr := types.Unalias(t).Underlying().(*types.Array); isArr {
-			_, es := s.ArrayParts()
-			name := "E." + sanitize(string(es))
+		if at, isArr := types.Unalias(t).Underlying().(*types.Array); isArr {
+			name := ex.eComp(at.Elem())
 			e := ex.comp(st, name, ArraySort(SInt, s))
 			ex.setComp(st, name, f.Store(e, p, v))
 			return
 		}
 	}
-	name := "P." + sanitize(string(s))
+	name := ex.pComp(t)
 	arr := ex.comp(st, name, ArraySort(SInt, s))
 	ex.setComp(st, name, f.Store(arr, p, v))
 }
@@ -1306,7 +1304,7 @@ func (fr *Frame) step(st *State, in ssa.Instruction) bool {
 		l, c := fr.val(x.Len), fr.val(x.Cap)
 		et := types.Unalias(x.Type()).Underlying().(*types.Slice).Elem()
 		es := ex.tm.SortOf(et)
-		name := "E." + sanitize(string(es))
+		name := ex.eComp(et)
 		e := ex.comp(st, name, ArraySort(SInt, ArraySort(SInt, es)))
 		ex.setComp(st, name, f.Store(e, r, f.ConstArray(ArraySort(SInt, es), ex.tm.Zero(et))))
 		fr.env[x] = f.Mk("Slice", r, f.Int(0), l, c)
@@ -1541,14 +1539,14 @@ func (fr *Frame) convert(st *State, x *ssa.Convert) *Term {
 		r := ex.alloc(st)
 		ex.assume(st, f.Gt(r, f.Int(0)))
 		n := ex.tm.StrLen(v)
-		name := "E.Int"
+		name := "E.uint8"
 		e := ex.comp(st, name, ArraySort(SInt, ArraySort(SInt, SInt)))
 		arr := f.App("str.bytes_", ArraySort(SInt, SInt), v)
 		ex.setComp(st, name, f.Store(e, r, arr))
 		ex.assumes = append(ex.assumes, f.Eq(f.App("str.frombytes_", SStr, arr, f.Int(0), n), v))
 		return f.Mk("Slice", r, f.Int(0), n, n)
 	case fs == Sort("Slice") && ts == SStr:
-		e := ex.comp(st, "E.Int", ArraySort(SInt, ArraySort(SInt, SInt)))
+		e := ex.comp(st, "E.uint8", ArraySort(SInt, ArraySort(SInt, SInt)))
 		arr := f.Select(e, f.Acc("Slice", "ref", v))
 		r := f.App("str.frombytes_", SStr, arr, f.Acc("Slice", "off", v), f.Acc("Slice", "len", v))
 		ex.assume(st, f.Eq(ex.tm.StrLen(r), f.Acc("Slice", "len", v)))
@@ -1646,7 +1644,7 @@ func (fr *Frame) sliceOp(st *State, x *ssa.Slice) {
 			ex.note("slice of an array embedded in a struct: contents copied, aliasing lost")
 			es := ex.tm.SortOf(at.Elem())
 			r := ex.alloc(st)
-			name := "E." + sanitize(string(es))
+			name := ex.eComp(at.Elem())
 			e := ex.comp(st, name, ArraySort(SInt, ArraySort(SInt, es)))
 			ex.setComp(st, name, f.Store(e, r, ex.loadArr(st, base, es)))
 			base = r
